@@ -49,6 +49,7 @@ class Side:
         self.broker.add_market(self.m)
         self.tick = tick_a if token0_quote else -tick_a
         self.vols, self.liq = vols, liq
+        self.half_tick = bool(ctx.p.get("half_tick"))
         self.set_bar(tick_a)
         self.broker.set_balance(self.B, wallet_base)
         self.broker.set_balance(self.Q, wallet_quote)
@@ -64,6 +65,10 @@ class Side:
         in0, in1 = (vq, vb) if self.t0q else (vb, vq)
         tick = tick_a if self.t0q else -tick_a
         price = tick_to_base_unit_price(tick_a, self.Q.decimal, self.B.decimal, True)
+        if getattr(self, "half_tick", False):
+            # a price strictly inside tick_a (geometric middle of the tick): its floor tick is tick_a in A and -(tick_a + 1) in the mirror
+            price = (price * tick_to_base_unit_price(tick_a + 1, self.Q.decimal, self.B.decimal, True)).sqrt()
+            tick = tick_a if self.t0q else -(tick_a + 1)
         self.m.set_market_status(
             UniswapMarketStatus(timestamp=None, data=pd.Series(data=[in0, in1, self.liq, tick, price], index=["inAmount0", "inAmount1", "currentLiquidity", "closeTick", "price"], dtype=object)),
             price=None,
@@ -350,6 +355,16 @@ def op_scenario(ctx):
             _same(ctx, "estimate_liquidity: base amount agrees to one tick of the range split", r[0][1] * price, r[1][1] * price, rel=0, abs_=one_tick * val)
             _same(ctx, "estimate_liquidity: quote amount agrees to one tick of the range split", r[0][2], r[1][2], rel=0, abs_=one_tick * val)
             _same(ctx, "estimate_liquidity: amounts are worth the requested value", r[0][1] * price + r[0][2], val, rel=0, abs_=EST * val)
+            # in each orientation on its own: the liquidity returned is what the requested value buys at the bar price (closed forms,
+            # harness oracle); the helper rounds the price to a tick, hence 1 % and not 1e-12
+            from ..models.nv import v3_amounts_per_liquidity, N
+
+            for side, rr in ((a, r[0]), (b, r[1])):
+                l_, h_ = side.ticks(lo, hi)
+                c0, c1 = v3_amounts_per_liquidity(l_, h_, price, side.t0q, side.pool.token0.decimal, side.pool.token1.decimal)
+                bq = side.bq(c0, c1)
+                worth = N(_dec(rr[0])) * (bq[0] * N(price) + bq[1])
+                ctx.check("estimate_liquidity: the liquidity returned is worth the requested value at the bar price (1 %), in each orientation", sabs(worth - N(val)) <= N(D("0.01")) * N(val) + N(D("1e-6")))
         return
     # ---- operations on an existing position
     keys = _setup_position(ctx, a, b, sl)
@@ -423,6 +438,11 @@ def scenarios(tier):
                         if tier == "quick" and (mv == 900 or ((dq, db) != (6, 18) and rg != "inside")):
                             continue
                         out.append(Scenario(f"fee_bar{mv:+d}/{rg}/{tag}", op_scenario, params=dict(base, op="fee_bar", range=rg, move=mv, deposit=DEPOSITS[(len(out)) % len(DEPOSITS)] if tier != "quick" else DEPOSITS[0]), entry=("UniLpMarket.update", "V3CoreLib.update_fee", "UniLpMarket.collect_fee", "get_position_status", "get_market_balance"), **dict(kw, nlsat=True, relax_inputs=True)))
+                # price strictly inside the tick that is a range bound (pool tick 200010 = lower bound of edge_low = upper bound of edge_high)
+                if t == ticks[0] and fee == fees[0] and (dq, db) == (6, 18):
+                    for rg in ("edge_low", "edge_high"):
+                        for op in ("estimate_liquidity", "estimate_amount"):
+                            out.append(Scenario(f"{op}/{rg}/half_tick_inside_the_bound/t200010/q{dq}b{db}", op_scenario, params=dict(tick=200010, dq=dq, db=db, fee=fee, op=op, range=rg, half_tick=True), entry=(f"UniLpMarket.{op}",), **kw))
                 if tier != "quick" or (dq, db) == (18, 6):
                   out.append(Scenario(f"add_by_tick_poor_wallet/inside/{tag}", op_scenario, params=dict(base, op="add_by_tick", range="inside", poor=True), entry=("UniLpMarket.add_liquidity_by_tick", "Asset.sub"), **kw))
                 for op in ("buy", "sell", "even_rebalance"):
